@@ -64,10 +64,16 @@ example : allocatePrice [100, 50] [66, 48, 60] [10, 5] =
 /-- an overflow is possible (the only way `allocatePrice` can die): leftover `2^200`, assets `2^100` -/
 example : allocatePrice [1] [1 + 2 ^ 200] [2 ^ 100] = .error .overflow := by decide
 
+/-- every account of the examples holds 1000 of each denom (the bank refuses a send the sender cannot
+cover: `KErr.funds`) -/
+def exFunds : Ledger :=
+  ["S1", "X1", "B1", "B2", "S9", "B9"].foldl
+    (fun L a => Ledger.credit L a [("apple", 1000), ("usd", 1000), ("fig", 1000)]) []
+
 /-- a keeper state holding the example's orders (seller ratio 1000:3 usd, 5 % exchange split on usd) -/
 def exState : KState :=
   { ratio := some ⟨"usd", 1000, "usd", 3⟩, split := [("usd", 500)], dfltSplit := 0, nextId := 14,
-    orders := exAsks ++ exBids, ledger := [] }
+    orders := exAsks ++ exBids, ledger := exFunds }
 
 /-- it satisfies the store invariant (hypothesis of `settleOrders_covered`, conclusion of `history_invariant`) -/
 example : StoreInv exState :=
@@ -99,7 +105,7 @@ example : exState.msgMarketSettle "mkt" "feecol" [1, 2, 11] [11, 12, 13] true = 
 example : exState.msgMarketSettle "mkt" "feecol" [] [11] false = .error .noIds := by decide
 example : exState.msgFillBids "mkt" "feecol" "S9" [11, 0] [("apple", 6)] [] = .error .zeroId := by decide
 example : (match exState.fillBids "mkt" "feecol" "S9" [12, 12] [("apple", 8)] [] with
-    | .ok s' => bal s'.ledger "X1" "usd" == -96 && bal s'.ledger "X1" "apple" == 8
+    | .ok s' => bal s'.ledger "X1" "usd" == 1000 - 96 && bal s'.ledger "X1" "apple" == 1000 + 8
     | .error _ => false) = true := by decide
 example : exState.apply "mkt" "feecol" (.fillBids "S9" [12, 12] [("apple", 8)] []) = exState := by decide
 
@@ -114,13 +120,13 @@ example :
     let s := [KOp.create ⟨0, true, "S1", "apple", 10, "usd", 100, [], true⟩,
               KOp.create ⟨0, false, "B1", "apple", 4, "usd", 44, [("fig", 2)], false⟩,
               KOp.settle [1] [2] true,
-              KOp.fillAsks "X1" [1] ("usd", 60) [("fig", 1)]].foldl (KState.apply "mkt" "feecol") ({} : KState)
-    s.orders = [] ∧ bal s.ledger "B1" "apple" = 4 ∧ bal s.ledger "X1" "apple" = 6 ∧
-      bal s.ledger "S1" "usd" = 104 ∧ bal s.ledger "mkt" "fig" = 3 := by decide
+              KOp.fillAsks "X1" [1] ("usd", 60) [("fig", 1)]].foldl (KState.apply "mkt" "feecol") ({ ledger := exFunds } : KState)
+    s.orders = [] ∧ bal s.ledger "B1" "apple" = 1004 ∧ bal s.ledger "X1" "apple" = 1006 ∧
+      bal s.ledger "S1" "usd" = 1104 ∧ bal s.ledger "mkt" "fig" = 3 := by decide
 
 /-- `FillBids` on the example state (seller `S9` fills bids 11 and 12 with a 2 usd flat fee) -/
 example : (match exState.fillBids "mkt" "feecol" "S9" [11, 12] [("apple", 10)] [("usd", 2)] with
-    | .ok s' => bal s'.ledger "S9" "usd" == 66 + 48 - 2 - 1 && bal s'.ledger "S9" "apple" == -10
+    | .ok s' => bal s'.ledger "S9" "usd" == 1000 + 66 + 48 - 2 - 1 && bal s'.ledger "S9" "apple" == 1000 - 10
         && bal s'.ledger "feecol" "usd" == 1 && s'.orders.length == 3
     | .error _ => false) = true := by decide
 
